@@ -37,7 +37,7 @@ META = {
 }
 GEN = []
 TARGETS = ["Base/Json", "Base/Envelope", "Base/JsonSexp", "Spec/C02", "Model/Envelope", "Proofs/JsonFacts", "Proofs/Envelope",
-           "Drv/C02", "Props/C02"]
+           "Drv/C02", "History/C02_prefix", "Props/C02"]
 PID = "C02"
 
 TRUSTED = [
@@ -82,6 +82,7 @@ KIND_R = {v: k for k, v in KIND.items()}
 DEFECTS = ["not-an-object", "bad-version", "method-not-a-string", "request-carries-result-or-error", "params-not-an-object",
            "request-id-not-string-or-integer", "response-carries-params", "neither-result-nor-error", "both-result-and-error",
            "response-without-id", "response-id-not-string-or-integer", "error-object-malformed"]
+CLS_NAMES = ["JSONRPCRequest", "JSONRPCNotification", "JSONRPCResponse", "JSONRPCError", "JSONRPCMessage"]
 CTOR_CODE = {("create_request", False): 0, ("create_notification", False): 2, ("create_response", False): 3,
              ("create_error_response", False): 4, ("create_request", True): 5, ("create_notification", True): 6,
              ("create_response", True): 7, ("create_error_response", True): 8}
@@ -659,17 +660,23 @@ def judge(ctx, drv, cases, docs):
                              "parse_message: model and implementation disagree on accept/raise")
             elif real_ok:
                 pv = row["parsed"]["view"]
-                mcls = ["JSONRPCRequest", "JSONRPCNotification", "JSONRPCResponse", "JSONRPCError", "JSONRPCMessage"][model_msg[0]]
+                mcls = CLS_NAMES[model_msg[0]]
                 mkind = None if model_msg[7] == [] else KIND_R[model_msg[7][0]]
-                same = pv["cls"] == mcls and pv["kind"] == mkind
+                same = pv["kind"] == mkind
                 if same and model_view is not None:
                     same = rv is not None and views_equal(rv, model_view)
                 elif same:
                     mid = None if model_msg[2] == [] else dec_rid(model_msg[2][0])
                     same = type(pv["id"]) is type(mid) and pv["id"] == mid
                 if not same:
-                    ctx.mismatch({"backend": row["b"], "wire": row["value"]}, pv, {"cls": mcls, "kind": mkind, "view": model_view},
-                                 "parse_message: model and implementation produce different objects")
+                    what = "parse_message: model and implementation produce different messages"
+                    if pv["kind"] is None and mkind == "err" and pv["id"] is None and pv["method"] is None and pv["error"] is not None:
+                        what += " [the implementation matches the model of the UNPATCHED code (History/C02_prefix.v): " \
+                                "fixes/C02-null-id-error-is-a-response.patch is not applied]"
+                    ctx.mismatch({"backend": row["b"], "wire": row["value"]}, pv, {"cls": mcls, "kind": mkind, "view": model_view}, what)
+                elif pv["cls"] != mcls:
+                    # which class carries the message is not something the property talks about: recorded, not compared
+                    ctx.count("parse:class-differs-from-model(not-compared)")
         else:
             ctx.count("parse:outside-modelled-domain")
         if not row["emitted"]:
@@ -781,10 +788,12 @@ def model_constructors(ctx, drv, cases, docs):
             if "value" in g and not jeq(g["value"], mdump):
                 ctx.mismatch(key, {"via": g["names"], "wire": g["value"]}, mdump, "constructor + dump: model and implementation differ")
                 break
-        mcls = ["JSONRPCRequest", "JSONRPCNotification", "JSONRPCResponse", "JSONRPCError", "JSONRPCMessage"][built[0][0]]
+        mcls = CLS_NAMES[built[0][0]]
         mkind = None if built[0][7] == [] else KIND_R[built[0][7][0]]
-        if e.get("obj") and (e["obj"]["cls"] != mcls or e["obj"]["kind"] != mkind):
-            ctx.mismatch(key, e["obj"], {"cls": mcls, "kind": mkind}, "constructor: class / kind of the built object differ")
+        if e.get("obj") and e["obj"]["kind"] != mkind:
+            ctx.mismatch(key, e["obj"], {"cls": mcls, "kind": mkind}, "constructor: kind of the built object differs")
+        elif e.get("obj") and e["obj"]["cls"] != mcls:
+            ctx.count("constructor:class-differs-from-model(not-compared)")
         ctx.extra["constructor_correspondence_checks"] = ctx.extra.get("constructor_correspondence_checks", 0) + 1
 
 
